@@ -46,6 +46,9 @@ def explain(path):
                 out.append("%2d: pool.append(LinearScale(%s, %s, None, %s))" % (i, op[2], op[3], op[4]))
             elif k == "new":
                 out.append("%2d: pool.append(LinearScale())" % i)
+            elif k in ("domain_from", "range_from"):
+                g = k.split("_")[0]
+                out.append("%2d: pool[%d].%s(pool[%d].%s())" % (i, op[1], g, op[2], g))
             elif k == "chain":
                 out.append("%2d: pool[%d].domain(%s).range(%s).clamp(%s)" % (i, op[1], op[2], op[3], op[4]))
             elif k == "interp":
@@ -81,6 +84,8 @@ def explain(path):
                     i, op[1], op[4] if len(op) > 4 else "SimAbort", op[2] / 10000.0, op[3] if len(op) > 3 else "any"))
             elif k == "stack_compute":
                 out.append("%2d: engine[%d].compute()   # FAULT: recursion limit = depth + %d" % (i, op[1], op[2]))
+            elif k == "rewidth":
+                out.append("%2d: labels of set %d are re-measured: new widths on the existing objects" % (i, op[1]))
             elif k == "inspect":
                 out.append("%2d: read-only inspection of engine[%d] (getLayers, metrics, node paths, clone, repr)" % (i, op[1]))
             elif k == "stale":
